@@ -75,7 +75,10 @@ func main() {
 	}
 	switch os.Args[1] {
 	case "db", "create":
-		// faultchild db|create <path> <fsize-limit> <op-json> <retry-op-json>
+		// faultchild db|create <path> <fsize-limit> <op-json> <retry-op-json> [same]
+		// with "same": when the operation reports a failure, the identical operation is repeated at once
+		// (what a client does), the result and served state are reported, and the file as it is on disk
+		// at that moment is copied to <path>.same - before the probe operation rewrites it
 		path := os.Args[2]
 		limit, _ := strconv.ParseInt(os.Args[3], 10, 64)
 		var op, retry dbx.Op
@@ -117,6 +120,14 @@ func main() {
 				os.Exit(4)
 			}
 			dumpLine("DUMP", d)
+		}
+		if os.Args[1] == "db" && len(os.Args) > 6 && os.Args[6] == "same" && out.Class != "ok" {
+			b, _ = json.Marshal(doOp(d, op))
+			mark("SAME " + string(b))
+			dumpLine("DUMPSAME", d)
+			if cp, err := os.ReadFile(path); err == nil {
+				os.WriteFile(path+".same", cp, 0o600)
+			}
 		}
 		b, _ = json.Marshal(doOp(d, retry))
 		mark("RETRY " + string(b))
